@@ -4,6 +4,7 @@ package main
 
 import (
 	"fmt"
+	"go/types"
 	"strings"
 
 	"golang.org/x/tools/go/ssa"
@@ -339,6 +340,31 @@ func checkHandlerCallers(c *Ctx) {
 			c.check(okk, "T-SHAPE(handler)", "handlerBuilder."+m[0]+"/sets-slot-"+m[1], c.P.fnPos(sf), "", "handlerBuilder."+m[0]+" does not store its argument in "+m[1])
 		}
 	}
+}
+
+// checkHandlerBuilderCopy: Create() hands out a value copy of the builder's
+// state, so re-using the builder afterwards cannot rewrite a handler that a
+// monitor already runs with.
+func checkHandlerBuilderCopy(c *Ctx, rel string) {
+	fn := c.mustFunc(rel, "handlerBuilder.Create")
+	if fn == nil {
+		return
+	}
+	ok := false
+	for _, b := range fn.Blocks {
+		if r, isRet := b.Instrs[len(b.Instrs)-1].(*ssa.Return); isRet && len(r.Results) == 1 {
+			if mi, isMI := r.Results[0].(*ssa.MakeInterface); isMI {
+				if _, isPtr := mi.X.Type().Underlying().(*types.Pointer); !isPtr {
+					ok = true
+				}
+			}
+		}
+	}
+	label := "handlerBuilder.Create"
+	if rel != "" {
+		label = rel + ":" + label
+	}
+	c.check(ok, "T-SHAPE(handler)", label+"/returns-a-copy", c.P.fnPos(fn), "", label+" returns a handler that aliases the builder (pointer conversion) instead of a copy: later use of the builder changes the callbacks of a running monitor, from another goroutine")
 }
 
 // checkMonitorAPI: NewMonitor subscribes to the given publisher, starts run
